@@ -6,6 +6,7 @@ pub mod c02;
 pub mod c03;
 pub mod c04;
 pub mod c05;
+pub mod c06;
 pub mod c17;
 
 macro_rules! props {
@@ -38,5 +39,6 @@ props! {
     "C03" => c03::C03,
     "C04" => c04::C04,
     "C05" => c05::C05,
+    "C06" => c06::C06,
     "C17" => c17::C17,
 }
